@@ -394,11 +394,17 @@ def check_roundtrip(session, image, path, ctx):
 # C14
 # --------------------------------------------------------------------------
 
+class OpenedButUnreadable(list):
+    """GroFile(path) succeeded (no error on opening) but reading the records raised."""
+
+
 def try_read(path, data):
-    """Returns None if the reader rejects the image, else the list of records it returned."""
+    """Returns None if OPENING the image raises (the property: 'opening the partial file raises an error'),
+    else the list of records it returned (an OpenedButUnreadable marker if reading them raised)."""
     from gaddlemaps.parsers import GroFile
-    with open(path, "wb") as fh:
-        fh.write(data)
+    if data is not None:
+        with open(path, "wb") as fh:
+            fh.write(data)
     try:
         r = GroFile(path)
     except Exception:
@@ -406,7 +412,7 @@ def try_read(path, data):
     try:
         recs = r.readlines()
     except Exception:
-        recs = None
+        recs = OpenedButUnreadable()
     try:
         r._file.close()
     except Exception:
@@ -447,11 +453,13 @@ def check_crash_points(trace, session, ops, complete, d, ctx):
         if got is None:
             return "rejected"
         if must_reject:
-            ctx.violate(P, "partial-accepted", f"{label}: reader returned {len(got)} atom records from an incomplete file "
+            how = ("was opened without an error (reading its records then failed)" if isinstance(got, OpenedButUnreadable)
+                   else f"was opened and returned {len(got)} atom records")
+            ctx.violate(P, "partial-accepted", f"{label}: an incomplete file {how} "
                                                f"({len(data)} bytes of {len(complete)}; box line starts at {box_start})",
                         key=label.split(":")[0])
             return "accepted!"
-        if not _same_records(got, full):
+        if isinstance(got, OpenedButUnreadable) or not _same_records(got, full):
             ctx.violate(P, "accepted-differs", f"{label}: accepted image returned records different from the complete file "
                                                f"({len(got)} vs {len(full)})", key=label.split(":")[0])
             return "accepted-wrong"
@@ -499,9 +507,75 @@ def check_crash_points(trace, session, ops, complete, d, ctx):
     for off in offsets:
         judge(complete[:off], f"truncate:{off}", off <= box_start)
         ctx.fault("byte_truncation")
+    # (4) the writer aborts: the count was declared, fewer (or more) records were written, and close() runs anyway
+    #     (an exception unwinding a `with` block); close must refuse, and what it leaves behind must not open
+    abort_outcome = ""
+    if n >= 2:
+        abort_outcome = check_abort(session, d, ctx, rng)
     ctx.probe("images", n_images)
     ctx.nontrivial = True
-    ctx.op("crash-enum", "".join(outcomes[-8:]) + f"n{min(n, 40)}c{int(session['declared'])}")
+    ctx.op("crash-enum", "".join(outcomes[-8:]) + f"n{min(n, 40)}c{int(session['declared'])}" + abort_outcome)
+
+
+def check_abort(session, d, ctx, rng):
+    from gaddlemaps.parsers import GroFile
+    P = "C14"
+    recs = session["records"]
+    n = len(recs)
+    mode = rng.choice(["fewer", "fewer", "more"])
+    k = rng.randint(1, n - 1)
+    declared = n if mode == "fewer" else k
+    written = recs[:k] if mode == "fewer" else recs
+    path = os.path.join(d, "abort.gro")
+    use_with = rng.random() < 0.5
+    raised = None
+    try:
+        if use_with:
+            try:
+                with GroFile(path, "w") as f:
+                    _configure(f, session)
+                    f.natoms = declared
+                    for r in written:
+                        f.writeline(list(r))
+                    raise KeyboardInterrupt("simulated failure in the caller's loop")
+            except KeyboardInterrupt:
+                raised = "interrupt-only"
+        else:
+            f = GroFile(path, "w")
+            _configure(f, session)
+            f.natoms = declared
+            for r in written:
+                f.writeline(list(r))
+            f.close()
+    except Exception as e:
+        raised = type(e).__name__
+        try:
+            f._file.close()
+        except Exception:
+            pass
+    ctx.fault("abort_with_declared_count:" + mode)
+    if raised is None or raised == "interrupt-only":
+        if not use_with or raised is None:
+            ctx.violate(P, "count-mismatch-not-refused", f"{len(written)} records were written with a declared count of "
+                                                         f"{declared} and close() did not raise")
+            return "A!"
+    got = try_read(path, None)
+    if got is not None:
+        ctx.violate(P, "aborted-file-accepted", f"the writer was closed after {len(written)} of {declared} declared records "
+                                                f"(close refused with {raised}); the file it left behind opens without an error",
+                    key=mode)
+        return "Aacc"
+    ctx.probe("aborted_writer_rejected")
+    return "A"
+
+
+def _configure(f, session):
+    if session["title"] is not None:
+        f.comment = session["title"]
+    if session["box"] is not None:
+        f.box_matrix = np.array(session["box"], dtype=float)
+    if session["fmt"]:
+        f.position_format = tuple(session["fmt"])
 
 
 def truncate_shipped(trace, ctx, d):
